@@ -14,7 +14,8 @@
     [ASetGlobal ok] "set_global_default returns Ok iff the cell was empty", [ABad] "not expressible, ignored".
     [agrees] compares an observation with that.  [Nested h]: guards are dropped innermost-first (LIFO). *)
 From Coq Require Import NArith List.
-From TV Require Import Dispatch.Model Dispatch.Shape Dispatch.Source Dispatch.Proofs_C01 Dispatch.Proofs_C02 Dispatch.Proofs_Shape_C02.
+From TV Require Import Dispatch.Model Dispatch.Shape Dispatch.Reentry Dispatch.Source Dispatch.Proofs_C01 Dispatch.Proofs_C02
+  Dispatch.Proofs_Reentry Dispatch.Proofs_Shape_C02.
 From TVGen Require Import Gen_dispatch.
 Import ListNotations.
 Local Open Scope N_scope.
@@ -145,6 +146,54 @@ Theorem C02_panic_restores_state :
   next s' = next s /\ cache s' = cache s /\ max_level s' = max_level s /\ dispatchers s' = dispatchers s.
 Proof. exact unwind_restores_concrete. Qed.
 Print Assumptions C02_panic_restores_state.
+
+(** "Restored on panic", where a COLLECTOR CALLBACK panics while handling an emission and the panic is caught above the
+    emission (catch_unwind, a surviving worker thread).  Dispatch/Reentry.v extends the model with the per-thread
+    re-entrancy flag `can_enter` and with callbacks that return, panic, or emit re-entrantly; [src_unwind_resets] is
+    read off get_default_slow (the RAII guard whose Drop sets the flag back).  After ANY history of such operations and
+    whatever the callback of this emission does: every thread's flag is set again, and every thread is handed the
+    dispatcher it was handed before — its receiver function is unchanged. *)
+Theorem C02_panic_in_callback_restores :
+  forall sm conf h t cs b,
+  let x := xfinal src_fx src_unwind_resets sm conf xinit h in
+  let x' := fst (xstep src_fx src_unwind_resets sm conf x (XEmitCb t cs b)) in
+  (forall u, ce x' u = true) /\
+  (forall u, current (xs x') u = current (xs x) u) /\
+  (forall u, xdefault src_fx x' u = current (xs x) u) /\
+  (forall u, xdefault src_fx x u = current (xs x) u).
+Proof. exact (fun sm conf => panic_in_callback_restores src_unwind_resets sm conf eq_refl). Qed.
+Print Assumptions C02_panic_in_callback_restores.
+
+(** ... hence histories in which callbacks panic refine the specification exactly like histories in which they return
+    (the headline, over the extended operations; [erase] forgets what the callbacks did). *)
+Theorem C02_spec_with_callback_panics :
+  forall sm conf h, no_reentry h -> Nested (erase h) ->
+  Forall2 agrees (map base_obs (map fst (xrun src_fx src_unwind_resets sm conf xinit h))) (aspec ainit (erase h)).
+Proof. exact (fun sm conf h => spec_refinement_with_callback_panics src_unwind_resets sm conf h eq_refl). Qed.
+Print Assumptions C02_spec_with_callback_panics.
+
+(** Re-entrancy: an emission made from inside a collector callback that runs under the slow path (some scope live
+    anywhere) is handed the no-op dispatcher — nobody receives it (documented: get_default must not be nested) — and by
+    the theorem above the flag is set back afterwards. *)
+Theorem C02_reentrant_emission_gets_none :
+  forall sm conf x t cs cs' p con c nested pp,
+  scoped (xs x) <> 0%nat -> ce x t = true ->
+  snd (do_emit_cb src_fx src_unwind_resets sm conf x t cs (CbEmit cs' p)) = XOEmitCb con (Some c) nested pp ->
+  nested = Some None.
+Proof. exact (reentrant_gets_none src_unwind_resets). Qed.
+Print Assumptions C02_reentrant_emission_gets_none.
+
+(** The unwinding half of the guard is load-bearing: with a flag that is set back on normal return only, one caught
+    callback panic inside a scope makes the thread's next emission vanish although its scope is still live (witness:
+    set_default(c0); an emission whose callback panics; an emission); and the same history with the guard. *)
+Theorem C02_unwind_guard_is_needed :
+  map fst (xrun true false (Some TRACE) (conf_of_list [all_pass]) xinit cb_history) =
+    [ XO (ONew 0); XO OUnit; XOEmitCb (Some (DCol 0)) (Some 0) None true; XO (OEmit (Some DNone) None) ] /\
+  current (xs (xfinal true false (Some TRACE) (conf_of_list [all_pass]) xinit cb_history)) 0 = DCol 0 /\
+  map fst (xrun true true (Some TRACE) (conf_of_list [all_pass]) xinit cb_history) =
+    [ XO (ONew 0); XO OUnit; XOEmitCb (Some (DCol 0)) (Some 0) None true; XO (OEmit (Some (DCol 0)) (Some 0)) ].
+Proof. exact unwind_guard_is_needed. Qed.
+Print Assumptions C02_unwind_guard_is_needed.
 
 (** "set_global_default succeeds exactly once", under EVERY interleaving of its three micro-steps
     (compare-exchange; store the dispatcher; store INITIALIZED) for any number of concurrent attempts. *)
